@@ -163,3 +163,48 @@ def all_elements(P, R, rule, fn, adt, field, what, allowed=("iter", "map", "coll
     else:
         R.violated(rule, "all:%s.%s@%s" % (adt.split("::")[-1], field, short(fn.path)),
                    "kind=anchor-missing: %s no longer iterates `%s.%s`" % (fn.path, adt.split("::")[-1], field), loc=fn.loc())
+
+
+def fast_equal_sound(P, R, rule):
+    """`fast_equal(a, b) == true` must imply the two TypeScript types are the same type: it licenses `dedup_by(fast_equal)` in
+    ts_union / ts_intersection, where a false `true` silently removes a member (a variable, a branch). Per arm: both patterns name the
+    same variant, every bound component takes part in the result, and object members are compared on key, type, readonly and optional
+    if they are compared at all."""
+    from facts import subnodes as sn
+    f = P.fn("nitrogql_printer::ts_types::fast_equal::fast_equal")
+    ms = [m for m in f.walk() if m.get("k") == "Match" and not m.get("x") and m["scrut"].get("k") == "Tup"]
+    R.floor(rule, "fast_equal table", len(ms), 1)
+    OF = "nitrogql_printer::ts_types::ObjectField"
+    n = 0
+    for arm in ms[0]["arms"]:
+        pat, body = arm["pat"], arm["body"]
+        while body.get("k") == "BlockExpr" and not body["b"].get("stmts"):
+            body = body["b"].get("tail") or body
+        v = lit_value(body)
+        if v is False and not arm.get("guard"):
+            continue
+        n += 1
+        if pat.get("k") != "Tuple" or len(pat.get("ps", [])) != 2:
+            R.violated(rule, "fast-equal:catch-all", "fast_equal answers `true`/computed for a catch-all pattern: unrelated types can compare equal", loc=f.loc())
+            continue
+        l, r = pat["ps"]
+        lv, rv = norm(l.get("ctor_of") or l.get("def") or ""), norm(r.get("ctor_of") or r.get("def") or "")
+        name = lv.split("::")[-1] or "?"
+        if not lv or lv != rv:
+            R.violated(rule, "fast-equal:%s" % name, "fast_equal can answer true for two different variants (%s vs %s)" % (lv, rv), loc=f.loc())
+            continue
+        binds = [b for b in sn(pat) if b.get("k") == "Binding"]
+        used = {y.get("local") for y in sn(body) if y.get("k") == "Path" and "local" in y}
+        wild = [w for w in sn(pat) if w.get("k") == "Wild"]
+        unused = [b["name"] for b in binds if b["local"] not in used]
+        ok = not unused and not (wild and v is not False)
+        reads = {y["field"] for y in sn(body) if y.get("k") == "Field" and norm(y.get("adt", "")) == OF}
+        need = {"key", "type", "readonly", "optional"}
+        if reads and not need <= reads:
+            ok = False
+            why = "object members are compared on %s only (missing %s): two objects with different %s are `equal`" % (sorted(reads), sorted(need - reads), sorted(need - reads))
+        else:
+            why = "components %s do not take part in the comparison" % (unused or "behind `_`")
+        R.check(rule, "fast-equal:%s" % name, ok, "%s: all components compared" % name, "fast_equal(%s, %s): %s, so dedup_by(fast_equal) can drop a "
+                "member that is not a duplicate" % (name, name, why), loc=f.loc())
+    R.floor(rule, "fast_equal arms that can answer true", n, 10)
